@@ -12,7 +12,9 @@ SM_KEYS = ["TITLE", "SUBTITLE", "ARTIST", "CREDIT", "BANNER", "BACKGROUND", "MUS
            "DELAYS", "WARPS", "BGCHANGES", "ANIMATIONS", "KEYSOUNDS", "ATTACKS", "DISPLAYBPM", "SELECTABLE", "GENRE",
            "FOO", "X1", "TIMESIGNATURES", "VERSION", "LABELS", "SAMPLESTART"]
 SSC_CHART_KEYS = ["CHARTNAME", "STEPSTYPE", "DESCRIPTION", "CHARTSTYLE", "DIFFICULTY", "METER", "RADARVALUES", "CREDIT",
-                  "MUSIC", "BPMS", "STOPS", "DELAYS", "WARPS", "OFFSET", "DISPLAYBPM", "ATTACKS", "LABELS", "FAKES", "FOO", "Z9"]
+                  "MUSIC", "BPMS", "STOPS", "DELAYS", "WARPS", "OFFSET", "DISPLAYBPM", "ATTACKS", "LABELS", "FAKES", "FOO", "Z9",
+                  # keys that merely begin or end like the note data key are ordinary properties
+                  "NOTESKIN", "NOTES3", "NOTE", "XNOTES", "NOTEDATA2"]
 
 
 def rand_value(rng, allow_none=True, short=False):
